@@ -70,17 +70,17 @@ Fixpoint poll_output_l (fuel : nat) (r : rstate) (h : holder) (w : world) : pres
   | O => (PReady (inr 99), r, h, w)
   | S f =>
     match output_buffer (rsp r) with
-    | [] => (PReady (inl tt), mkR (rsp r) (rwriteable r) false, (match h with HRequest => HNone | x => x end), w)
+    | [] => (PReady (inl tt), mkR (rsp r) (rwriteable r) false (raborted r), (match h with HRequest => HNone | x => x end), w)
     | out =>
       match h with
       | HWriter _ => (PWake, r, h, w)                     (* mutex held by a writer: Pending *)
       | _ =>
         match t_poll_write out w with
         | (PReady (inl n), w') =>
-          if n =? 0 then (PReady (inr EK_WriteZero), mkR (rsp r) (rwriteable r) true, HRequest, w')
-          else poll_output_l f (mkR (consume_output (rsp r) n) (rwriteable r) true) HRequest w'
-        | (PReady (inr k), w') => (PReady (inr k), mkR (rsp r) (rwriteable r) true, HRequest, w')
-        | (PWake, w') => (PWake, mkR (rsp r) (rwriteable r) true, HRequest, w')
+          if n =? 0 then (PReady (inr EK_WriteZero), mkR (rsp r) (rwriteable r) true (raborted r), HRequest, w')
+          else poll_output_l f (mkR (consume_output (rsp r) n) (rwriteable r) true (raborted r)) HRequest w'
+        | (PReady (inr k), w') => (PReady (inr k), mkR (rsp r) (rwriteable r) true (raborted r), HRequest, w')
+        | (PWake, w') => (PWake, mkR (rsp r) (rwriteable r) true (raborted r), HRequest, w')
         | (PBlock, w') => (PBlock, r, HRequest, w')
         end
       end
@@ -94,14 +94,14 @@ Fixpoint input_loop_l (fuel : nat) (dest : option N) (new : bytes) (r : rstate) 
   | S f =>
     match sparse maxc (rsp r) new dest with
     | StPanic n => (PReady (inr (1000 + n)), r, h, w)
-    | StErr p' e _ => (PReady (inr (perr_kind e)), mkR p' (rwriteable r) (rlock r), h, w)
+    | StErr p' e _ => (PReady (inr (perr_kind e)), mkR p' (rwriteable r) (rlock r) (raborted r || is_abort e), h, w)
     | StOk p' s =>
-      let r1 := mkR p' (rwriteable r) (rlock r) in
+      let r1 := mkR p' (rwriteable r) (rlock r) (raborted r) in
       if s_end s || (0 <? s_stream s) then
-        let r2 := if negb (rwriteable r1) && is_final_stream r1 then mkR p' true (rlock r) else r1 in
+        let r2 := if negb (rwriteable r1) && is_final_stream r1 then mkR p' true (rlock r) (raborted r) else r1 in
         (PReady (inl (s_stream s, s_dest s)), r2, h, w)
       else
-        let r2 := mkR (compress p') (rwriteable r) (rlock r) in
+        let r2 := mkR (compress p') (rwriteable r) (rlock r) (raborted r) in
         match poll_output_l fuel r2 h w with
         | (PReady (inl _), r3, h3, w0) =>
           match t_poll_read (sinput_space (rsp r3)) w0 with
@@ -129,7 +129,7 @@ Definition poll_input_l (fuel : nat) (dest : option N) (r : rstate) (h : holder)
   | None, _ :: _ => (PReady (inl (0, [])), r, h, w)
   | Some c, _ :: _ =>
     let n := N.min c (len sb) in
-    (PReady (inl (n, take n sb)), mkR (consume_stream (rsp r) n) (rwriteable r) (rlock r), h, w)
+    (PReady (inl (n, take n sb)), mkR (consume_stream (rsp r) n) (rwriteable r) (rlock r) (raborted r), h, w)
   | _, [] =>
     match poll_output_l fuel r h w with
     | (PReady (inl _), r', h', w') => input_loop_l fuel dest [] r' h' w'
